@@ -109,7 +109,7 @@ def response_corpus():
                     b'{"ok":[1,2,3]}')
     c["redirect"] = Msg(b"HTTP/1.1 302 Found", [b"Location: http://127.0.0.1:" + PORT + b"/next", b"Content-Length: 0"])
     c["sse"] = Msg(b"HTTP/1.1 200 OK", [b"Content-Type: text/event-stream"],
-                   b"retry: 1000\n\nid: 1\nevent: a\ndata: x\ndata: y\n\n: comment\ndata: z\r\n\r\n")
+                   b"retry: 1000\n\nid: 1\nevent: a\ndata: x\ndata: y\n\n: comment\ndata: z\n\n")
     c["sse_chunked"] = Msg(b"HTTP/1.1 200 OK", [b"Content-Type: text/event-stream", b"Transfer-Encoding: chunked"],
                            chunks=[[b"c", b"id: 7\ndata: ", CRLF], [b"4", b"q\n\n\n", CRLF]])
     c["lf"] = Msg(b"HTTP/1.1 200 OK", [b"Content-Length: 2"], b"lf", eol=b"\n")
@@ -137,7 +137,8 @@ TARGETS = [b"http://127.0.0.1:99999/", b"http://127.0.0.1:65536/x", b"http://127
            b"*", b"/%", b"/%zz", b"/%ff%fe", b"/\x00", b"/a?b?c#d#e", b"http://127.0.0.1:8080", b"HTTP://127.0.0.1/",
            b"ftp://127.0.0.1:21/x", b"/..//../etc/passwd", b"http://[::ffff:127.0.0.1]:8080/", b"http://127.0.0.1:65535/",
            b"http://127.0.0.1:99999999999999999999/", b"http://[::1]:abc/", b"?", b"#", b"http:///x", b"http://:80/",
-           b"/\xe9\xff", b"/%C3%A9", b"http://127.0.0.1\\@evil/", b"http://[fe80::1%eth0]:80/", b"http://[::1]:/x"]
+           b"/\xe9\xff", b"/%C3%A9", b"http://127.0.0.1\\@evil/", b"http://[fe80::1%eth0]:80/", b"http://[::1]:/x",
+           b"http://[::1%29]/", b"//%5B/x", b"http://%5Bzz%5D/", b"//a%2Fb%3A99999/x"]
 # (line, certainly-invalid)
 BAD_REQLINES = [(b"FOO / HTTP/1.1", True), (b"get / HTTP/1.1", True), (b"GET /", True), (b"GET", True),
                 (b"GET / HTTQ/1.1", True), (b"/ GET HTTP/1.1", True), (b"GET / HTTP/2.0", False), (b"GET / HTTP/0.9", False),
@@ -165,12 +166,13 @@ LOCATIONS = [None, b"", b"/rel", b"rel", b"?q=1", b"#f", b"http://127.0.0.1:@POR
              b"http://user@127.0.0.1:@PORT@/", b"HTTP://127.0.0.1:@PORT@/", b"http://unresolvable.invalid:@PORT@/",
              b"http://127.0.0.1:@PORT@/\xe9", b"ftp://127.0.0.1:@PORT@/", b"http://127.0.0.1:1/", b"http:///x", b"http://:@PORT@/",
              b"http://127.0.0.1:@PORT@:1/", b"http://127.0.0.1:@PORT@/a?b?c", b"http%3A%2F%2F127.0.0.1%3A@PORT@%2Fq",
-             b"http://localhost:@PORT@/l", b"\x00", b"http://127.0.0.1:@PORT@/ sp ace", b"http://[::1]:@PORT@/six"]
+             b"http://localhost:@PORT@/l", b"\x00", b"http://127.0.0.1:@PORT@/ sp ace", b"http://[::1]:@PORT@/six",
+             b"http://127.0.0.1://127.0.0.1:@PORT@/next", b"http://127.0.0.1:@PORT@//evil/next", b"http://127.0.0.1:@PORT@/http://x:1/"]
 REDIRECT_STATUS = [b"300 Multiple Choices", b"301 Moved Permanently", b"302 Found", b"303 See Other", b"307 Temporary Redirect",
                    b"305 Use Proxy", b"308 Permanent Redirect"]
 SSE_BODIES = [b"data: \xff\xfe\n\n", b"\xff: x\n\n", b"id: \x00\n\ndata: a\n\n", b"retry: abc\n\n", b"retry: 99999999999999999999\ndata: r\n\n",
               b"data\n\n", b"\rdata: x\r\r", b"\xef\xbb\xbfdata: bom\n\n", b"data: x", b"data: {\"a\":\n\n", b"event: \xc3\n\n",
-              b"data: a\r", b"\n\n\n", b":\n", b"id\ndata\nevent\nretry\n\n", b"data:  two spaces\n\n", b"da\x00ta: x\n\n"]
+              b"data: a\r", b"\n\n\n", b":\n", b"data: " + b"[" * 3000 + b"\n\n", b"id\ndata\nevent\nretry\n\n", b"data:  two spaces\n\n", b"da\x00ta: x\n\n"]
 JSON_BODIES = [b"{bad", b"\xff\xfe", b"[1,2", b"", b"nan", b"{\"a\":1}{\"b\":2}", b"\xef\xbb\xbf{}", b"[" * 2000, b"\"\\ud800\"", b"1e999"]
 TOKENS = [b"\r\n", b"\n", b"\r", b": ", b":", b" ", b"\t", b"\x00", b"\xff", b"chunked", b"Content-Length: ",
           b"Transfer-Encoding: chunked\r\n", b"0\r\n\r\n", b"HTTP/1.1", b"HTTP/1.0", b"%", b"%zz", b"[", b"]", b"://", b"@", b";", b"=",
@@ -429,13 +431,22 @@ def gen_big(rng, is_request, shape):
 _HTTPS = re.compile(rb"(?i)https")
 
 
-def gen_input(rng, is_request, allow_big=True):
+def gen_input(rng, is_request, allow_big=True, force=None):
+    """force='control' / 'reject' constructs an unmodified corpus message / a complete, certainly invalid one
+    (the classes the delivery-dependent oracles O3/O4 and the controls need a guaranteed number of)."""
     corpus = request_corpus() if is_request else response_corpus()
     shape = []
     reject = False
     control = False
     r = rng.random()
+    if force == "control":
+        r = 0.0
     segs = None
+    if force == "reject":
+        line = rng.choice([ln for ln, bad in (BAD_REQLINES if is_request else BAD_STATUS) if bad])
+        shape.append("reqline" if is_request else "statusline")
+        data = (req(line, [b"Host: localhost"]) if is_request else Msg(line, [b"Content-Length: 2"], b"ok")).render()
+        return {"segs": [L(data)], "shape": shape, "reject": True, "control": False}
     if r < 0.04:
         name = rng.choice(sorted(corpus))
         shape.append("control:" + name)
